@@ -32,7 +32,8 @@ contract("usim.py.events.Event.succeed", assumed=True,
          modifies=["Event.fired@self", "Event.val@self", "Event._value@self"], allocates=False,
          no_invariants=True,
          note="assumed: Event.succeed marks the event triggered with the value (second trigger is a RuntimeError), wakes its waiters "
-              "and schedules its callbacks for the current time step; it touches no resource state (usim.py.events is not under contract)")
+              "and schedules its callbacks for the current time step; it touches no resource state and creates no object that the "
+              "resource contracts can observe (allocates=False) (usim.py.events is not under contract)")
 contract("usim.py.events.Event.triggered", assumed=True, pure=True,
          params={"self": REF("Event")}, returns=BOOL, ensures=["result == self.fired"], modifies=[], no_invariants=True,
          note="assumed: Event.triggered reads the flag set by succeed/fail/trigger")
